@@ -55,8 +55,17 @@ def sh(cmd, cwd=None, timeout=3600, env=None):
 _built = {}
 
 
-def build_harness(release=False):
-    """(re)build the harness against /repo's working tree; returns binary path or raises"""
+def build_harness(release=False, logging=False):
+    """(re)build the harness against /repo's working tree; returns binary path or raises.
+    `logging`: the crate's optional `enable_logging` feature compiled in, with a logger that formats every record"""
+    if logging:
+        if "logging" in _built:
+            return _built["logging"]
+        rc, out = sh(["cargo", "build", "--offline", "--features", "logging", "--target-dir", "target-logging"], cwd=HARNESS, timeout=1800)
+        if rc != 0:
+            raise BuildError("harness build with the logging feature failed\n" + out[-4000:])
+        _built["logging"] = os.path.join(HARNESS, "target-logging", "debug", "lzverif-harness")
+        return _built["logging"]
     key = "release" if release else "dev"
     if os.environ.get("LZV_HARNESS_BIN") and not release:
         return os.environ["LZV_HARNESS_BIN"]        # bin/coverage: an instrumented build of the same harness
@@ -116,11 +125,11 @@ def case_id(line):
     return m.group(1) if m else None
 
 
-def run_impl(lines, release=False, case_timeout_ms=20000, timeout=3600):
+def run_impl(lines, release=False, case_timeout_ms=20000, timeout=3600, logging=False):
     """Run cases on the real code.  A hang (watchdog) or a process death (abort,
     e.g. allocation failure) is attributed to the case being run and the
     harness is restarted after it."""
-    binary = build_harness(release)
+    binary = build_harness(release, logging=logging)
     results = {}
     todo = list(lines)
     env = dict(ENV, LZV_CASE_TIMEOUT_MS=str(case_timeout_ms))
